@@ -399,6 +399,9 @@ def main():
     mode = job["mode"]
     recs = []
     discarded = 0
+    for inst in job.get("large_instances", []):
+        recs.append(rec_large([Fraction(x) for x in inst["des"]], [Fraction(x) for x in inst["wt"]], [Fraction(x) for x in inst["sc"]],
+                              [(a, b, Fraction(g)) for a, b, g in inst["cons"]]))
     if job.get("instances"):
         for inst in job["instances"]:
             cons = [tuple(c) for c in inst["cons"]]
